@@ -841,6 +841,28 @@ package builder
 //@   safety C11
 //@   frame C18
 
+//@ #if dbg
+//@ frameset PSdbg0 = all map[string]map[string]int, all map[string]int
+//@ #else
+//@ frameset PSdbg0 = all Stats.ExprCnt
+//@ #endif
+//@ #if memo
+//@ frameset PSmemo0 = all map[int]map[any]resultTuple, all map[any]resultTuple
+//@ #else
+//@ frameset PSmemo0 = all Stats.ExprCnt
+//@ #endif
+//@ #if state
+//@ frameset PSstate0 = statePool
+//@ #else
+//@ frameset PSstate0 = all Stats.ExprCnt
+//@ #endif
+// Parse: the API entry. Every non-nil error it returns is a non-empty list of parser errors (C11).
+//@ func Parse(filename string, b []byte, opts []Option) (val any, err error)
+//@   modifies all Stats.ExprCnt, all map[string]any, all storeDict, PSdbg0, PSmemo0, PSstate0
+//@   ensures [typed C11] err != nil ==> is(err, "errList") && len(as(err, "errList")) > 0
+//@   panics [user] true
+//@   safety C11
+
 //@ func (p *parser) buildRulesTable(gr *grammar)
 //@   requires [ctx] p != nil && gr == g && gr != nil && forall k int :: {gr.rules[k]} 0 <= k && k < len(gr.rules) ==> gr.rules[k] != nil
 //@   modifies p.rules
